@@ -96,6 +96,7 @@ def execute(script):
         wallet = Wallet({k.pub: k.priv for k in ks}, [k.pub for k in ks], {})
         all_pubs = {k.pub for k in ks}
         outstanding = set()       # handed out and not restored (in-memory lineage)
+        reused = {}               # key -> hand-outs it got from an exhausted pool that were not undone yet
         last_handout = None
         drained = False
         save_index = 0
@@ -132,6 +133,8 @@ def execute(script):
                 if k not in all_pubs:
                     res.violate(PROP, 'C15/handed-out-foreign-key', 'key not in the wallet')
                     break
+                if not unused_before:
+                    reused[k] = reused.get(k, 0) + 1       # a hand-out from an exhausted pool: an already used key again
                 if unused_before:
                     if k in outstanding:
                         res.violate(PROP, 'C15/key-handed-out-twice',
@@ -155,10 +158,25 @@ def execute(script):
                 cands = sorted(k for k in outstanding if k in ann and k not in wallet.unused_public_keys)
                 if not cands:
                     continue
-                k = cands[op.get('which', 0) % len(cands)]
+                # prefer undoing the most recent hand-out (what the miner does with its reserved key on shutdown)
+                if last_handout is not None and last_handout[0] in cands and op.get('which', 0) % 2 == 0:
+                    k = last_handout[0]
+                else:
+                    k = cands[op.get('which', 0) % len(cands)]
                 wallet.restore_annotated_public_key(k, ann[k])
-                outstanding.discard(k)
                 res.bump('restores')
+                if reused.get(k):
+                    # this undoes a hand-out that came from an exhausted pool: the key's earlier hand-out is still
+                    # outstanding, so the key must not become available again
+                    reused[k] -= 1
+                    res.bump('probe:restore_of_reused_key')
+                    if k in wallet.unused_public_keys:
+                        res.violate(PROP, 'C15/key-handed-out-twice',
+                                    'a key that had been handed out before, was handed out again from an exhausted pool and then '
+                                    'restored, is back among the unused keys: the next hand-out returns it although it is in use')
+                        break
+                    continue
+                outstanding.discard(k)
                 if k not in wallet.unused_public_keys or k in wallet.public_key_annotations:
                     res.violate(PROP, 'C15/restore-did-not-return-key', 'restored key is not unused again')
                     break
@@ -232,6 +250,7 @@ def execute(script):
                 # hand-outs made after the last completed save are legitimately forgotten by a restart
                 wallet = w2
                 outstanding = {k for k in all_pubs if human(k) in file_t[2]}
+                reused = {}
                 res.bump('loads')
             elif kind == 'pay':
                 kk = ks[op.get('key', 0) % nk]
